@@ -29,6 +29,12 @@ Notation set_pc := (set_pc tasks).
 
 Definition final (d : dstate) (x : name) : Prop := unfinished (st_of d x) = false.
 
+(* dependency x of the node is finished and its outcome was recorded in the node
+   (ExecNode.parent_status: bad_deps / ignored_deps) *)
+Definition is_failst (s : status) : bool := match s with SFailure | SFailureV => true | _ => false end.
+Definition recd (d : dstate) (nd : node) (x : name) : Prop :=
+  final d x /\ (is_failst (st_of d x) = true -> In x (n_bad nd)) /\ (st_of d x = SIgnore -> In x (n_ign nd)).
+
 Definition late (p : pc) : bool :=
   match p with PLoop | PCalc _ _ _ | PTask _ _ => false | _ => true end.
 Definition inflight (p : pc) : list name :=
@@ -38,17 +44,21 @@ Definition inflight (p : pc) : list name :=
 Definition early (p : pc) : bool :=
   match p with PLoop | PCalc _ _ _ | PTask _ _ | PSelf => true | _ => false end.
 
+(* the generator is between `for setup_task in setup_tasks` and its last `yield this_task` *)
+Definition in_setup (p : pc) : bool := match p with PSetup _ | PSetupWaited => true | _ => false end.
+
 Record node_ok (d : dstate) (me : name) (nd : node) : Prop := {
   ok_acc : forall x, In x (n_all_task nd ++ n_all_calc nd) ->
            In x (n_pend_task nd ++ n_pend_calc nd) \/ In x (inflight (n_pc nd)) \/
-           In x (n_wrun nd ++ n_wcalc nd) \/ final d x;
+           In x (n_wrun nd ++ n_wcalc nd) \/ recd d nd x;
   ok_late : late (n_pc nd) = true ->
             n_pend_task nd = [] /\ n_pend_calc nd = [] /\ n_wcalc nd = [] /\
             (n_pc nd <> PSetupWaited -> n_wrun nd = []);
   ok_setup : n_pc nd = PSetupWaited ->
-             forall x, In x (t_setup (get_task me)) -> In x (n_wrun nd) \/ final d x;
+             forall x, In x (t_setup (get_task me)) -> In x (n_wrun nd) \/ recd d nd x;
   ok_wsel : n_wsel nd = false;
-  ok_early : early (n_pc nd) = true -> n_st nd = SNone
+  ok_early : early (n_pc nd) = true -> n_st nd = SNone;
+  ok_sst : in_setup (n_pc nd) = true -> n_st nd = SRun
 }.
 
 Definition Inv (d : dstate) : Prop :=
@@ -58,17 +68,29 @@ Definition Inv (d : dstate) : Prop :=
 Definition resumable (d : dstate) (me : name) : Prop :=
   n_pc (node_of d me) = PSetupWaited -> n_wrun (node_of d me) = [].
 
-Definition mono (d d' : dstate) : Prop := forall x, final d x -> final d' x.
+(* the status of a finished task never changes *)
+Definition mono (d d' : dstate) : Prop := forall x, final d x -> st_of d' x = st_of d x.
+Lemma mono_final d d' x : mono d d' -> final d x -> final d' x.
+Proof. intros Hm Hx. unfold final. rewrite (Hm x Hx). exact Hx. Qed.
+Lemma recd_mono d d' nd x : mono d d' -> recd d nd x -> recd d' nd x.
+Proof.
+  intros Hm (A & B & C). split; [eapply mono_final; eauto|]. rewrite (Hm x A). auto.
+Qed.
+Lemma recd_final d nd x : recd d nd x -> final d x.
+Proof. intros H. apply H. Qed.
+Lemma recd_fields d nd nd' x : n_bad nd' = n_bad nd -> n_ign nd' = n_ign nd -> recd d nd x -> recd d nd' x.
+Proof. unfold recd. intros -> ->. auto. Qed.
+#[local] Hint Resolve recd_mono mono_final recd_final : core.
 
 Lemma node_ok_mono d d' me nd : mono d d' -> node_ok d me nd -> node_ok d' me nd.
 Proof.
   intros Hm [H1 H2 H3 H4]. split; auto.
-  - intros x Hx. destruct (H1 x Hx) as [H|[H|[H|H]]]; auto.
-  - intros Hp x Hx. destruct (H3 Hp x Hx); auto.
+  - intros x Hx. destruct (H1 x Hx) as [H|[H|[H|H]]]; eauto 6.
+  - intros Hp x Hx. destruct (H3 Hp x Hx); eauto.
 Qed.
 
 Lemma mono_of_st d d' : (forall x, st_of d' x = st_of d x) -> mono d d'.
-Proof. intros H x. unfold final. rewrite H. auto. Qed.
+Proof. intros H x _. apply H. Qed.
 
 Lemma new_node_ok d pa k : node_ok d k (new_node tasks pa k).
 Proof.
@@ -93,10 +115,11 @@ Qed.
 Record node_okw (d : dstate) (nd : node) : Prop := {
   okw_acc : forall x, In x (n_all_task nd ++ n_all_calc nd) ->
            In x (n_pend_task nd ++ n_pend_calc nd) \/ In x (inflight (n_pc nd)) \/
-           In x (n_wrun nd ++ n_wcalc nd) \/ final d x;
+           In x (n_wrun nd ++ n_wcalc nd) \/ recd d nd x;
   okw_late : late (n_pc nd) = true -> n_pend_task nd = [] /\ n_pend_calc nd = [] /\ n_wcalc nd = [];
   okw_wsel : n_wsel nd = false;
-  okw_early : early (n_pc nd) = true -> n_st nd = SNone
+  okw_early : early (n_pc nd) = true -> n_st nd = SNone;
+  okw_sst : in_setup (n_pc nd) = true -> n_st nd = SRun
 }.
 
 Lemma node_ok_okw d me nd : node_ok d me nd -> node_okw d nd.
@@ -105,7 +128,7 @@ Proof. intros [H1 H2 H3 H4]. split; auto. intros Hl. destruct (H2 Hl) as (A & B 
 Lemma node_okw_mono d d' nd : mono d d' -> node_okw d nd -> node_okw d' nd.
 Proof.
   intros Hm [H1 H2 H3]. split; auto.
-  intros x Hx. destruct (H1 x Hx) as [H|[H|[H|H]]]; auto.
+  intros x Hx. destruct (H1 x Hx) as [H|[H|[H|H]]]; eauto 6.
 Qed.
 
 Lemma node_ok_wme d me nd w : node_ok d me nd -> node_ok d me (nd_wme nd w).
@@ -165,7 +188,9 @@ Record awr_rel (calc : bool) (d d' : dstate) (me : name) : Prop := {
       n_pc (node_of d' z) = n_pc (node_of d z) /\ n_wrun (node_of d' z) = n_wrun (node_of d z);
   ar_queues : d_ready d' = d_ready d /\ d_waiting d' = d_waiting d /\ d_cur d' = d_cur d /\ d_torun d' = d_torun d;
   ar_ex : forall z, d_nodes d z <> None -> d_nodes d' z <> None;
-  ar_all : all_grows d d'
+  ar_all : all_grows d d';
+  ar_bad : incl (n_bad (node_of d me)) (n_bad (node_of d' me));
+  ar_ign : incl (n_ign (node_of d me)) (n_ign (node_of d' me))
 }.
 
 Lemma nodes_set_ex d k nd z : d_nodes d z <> None -> d_nodes (set_node d k nd) z <> None.
@@ -176,7 +201,7 @@ Proof.
 Qed.
 
 Lemma awr_rel_refl calc d me : awr_rel calc d d me.
-Proof. split; auto. apply all_grows_refl. Qed.
+Proof. split; auto; try apply incl_refl. apply all_grows_refl. Qed.
 
 Lemma awr_rel_trans calc d1 d2 d3 me : awr_rel calc d1 d2 me -> awr_rel calc d2 d3 me -> awr_rel calc d1 d3 me.
 Proof.
@@ -194,6 +219,8 @@ Proof.
     destruct (ar_queues _ _ _ _ B) as (b1 & b2 & b3 & b4). repeat split; congruence.
   - intros z Hz. apply (ar_ex _ _ _ _ B), (ar_ex _ _ _ _ A), Hz.
   - eapply all_grows_trans; [apply (ar_all _ _ _ _ A)|apply (ar_all _ _ _ _ B)].
+  - eapply incl_tran; [apply (ar_bad _ _ _ _ A)|apply (ar_bad _ _ _ _ B)].
+  - eapply incl_tran; [apply (ar_ign _ _ _ _ A)|apply (ar_ign _ _ _ _ B)].
 Qed.
 
 Lemma process_calc_fields nd c s :
@@ -270,14 +297,29 @@ Qed.
 Lemma node_okw_wme d nd w : node_okw d nd -> node_okw d (nd_wme nd w).
 Proof. intros [H1 H2 H3]. split; simpl; auto. Qed.
 
+Lemma recd_parent d nd dep s x : recd d nd x -> recd d (parent_status nd dep s) x.
+Proof.
+  intros (A & B & C). destruct s; simpl; auto; (split; [exact A|]); simpl; split; intros H;
+    try apply in_or_app; auto.
+Qed.
+(* the finished dependency that is passed through parent_status is recorded *)
+Lemma recd_parent_self d nd dep : final d dep -> recd d (parent_status nd dep (st_of d dep)) dep.
+Proof.
+  intros F. split; [exact F|]. destruct (st_of d dep) eqn:E; simpl; split; intros H; try discriminate;
+    try (apply in_or_app; right; left; reflexivity).
+Qed.
 Lemma parent_status_okw d nd dep s : node_okw d nd -> node_okw d (parent_status nd dep s).
-Proof. intros [H1 H2 H3]. destruct s; simpl; auto; split; simpl; auto. Qed.
+Proof.
+  intros [H1 H2 H3]. destruct (parent_status_fields nd dep s) as (P1 & P2 & P3 & P4 & P5 & P6 & P7 & P8 & P9).
+  split; rewrite ?P1, ?P2, ?P3, ?P4, ?P5, ?P6, ?P7, ?P8, ?P9; auto.
+  intros x Hx. destruct (H1 x Hx) as [H|[H|[H|H]]]; auto. right; right; right. apply recd_parent. exact H.
+Qed.
 
 Lemma add_wait_one_spec d me x calc :
   InvExcept d me -> (calc = true -> late (n_pc (node_of d me)) = false) ->
   let d' := add_wait_one d me x calc in
   InvExcept d' me /\ awr_rel calc d d' me /\
-  (In x (wait_of calc (node_of d' me)) \/ final d x) /\
+  (In x (wait_of calc (node_of d' me)) \/ recd d' (node_of d' me) x) /\
   (forall y, In y (wait_of calc (node_of d' me)) -> y = x \/ In y (wait_of calc (node_of d me))).
 Proof.
   intros [HO HM] Hcalc. cbv zeta. unfold Dispatch.add_wait_one.
@@ -333,6 +375,8 @@ Proof.
     + intros z Hz. apply nodes_set_ex. unfold d1. apply nodes_set_ex. exact Hz.
     + apply (all_grows_trans d d1); [unfold d1; apply all_grows_set_node; simpl; apply incl_refl|].
       apply all_grows_set_node; unfold ndm; destruct calc; simpl; apply incl_refl.
+    + rewrite node_of_set_same. unfold ndm. destruct calc; simpl; rewrite Hnd1; simpl; apply incl_refl.
+    + rewrite node_of_set_same. unfold ndm. destruct calc; simpl; rewrite Hnd1; simpl; apply incl_refl.
     + left. rewrite node_of_set_same. unfold ndm, wait_of. destruct calc; simpl; apply addset_In; auto.
     + intros y. rewrite node_of_set_same. unfold ndm, wait_of. destruct calc; simpl; rewrite Hnd1; simpl;
         intros Hy; apply addset_In in Hy; destruct Hy; auto.
@@ -367,7 +411,14 @@ Proof.
         try (rewrite f7; apply incl_refl); try (rewrite f8; apply incl_refl).
       * eapply incl_tran; [|apply (proj1 (process_calc_incl nd1 x (st_of d x)))]. rewrite f7. apply incl_refl.
       * eapply incl_tran; [|apply (proj2 (process_calc_incl nd1 x (st_of d x)))]. rewrite f8. apply incl_refl.
-    + right. exact Eu.
+    + rewrite node_of_set_same. unfold ndm. destruct calc; [rewrite g7|]; fold nd0; unfold nd1;
+        destruct (st_of d x); simpl; try apply incl_refl; apply incl_appl, incl_refl.
+    + rewrite node_of_set_same. unfold ndm. destruct calc; [rewrite g8|]; fold nd0; unfold nd1;
+        destruct (st_of d x); simpl; try apply incl_refl; apply incl_appl, incl_refl.
+    + right. rewrite node_of_set_same.
+      apply (recd_mono d); [apply mono_of_st; exact Hst2|].
+      apply (recd_fields d nd1); [unfold ndm; destruct calc; auto|unfold ndm; destruct calc; auto|].
+      apply recd_parent_self. exact Eu.
     + intros y. rewrite node_of_set_same. unfold ndm, wait_of. destruct calc.
       * rewrite g4, f4. auto.
       * rewrite f3. auto.
@@ -377,11 +428,17 @@ Lemma wait_of_inc calc d d' me y :
   awr_rel calc d d' me -> In y (wait_of calc (node_of d me)) -> In y (wait_of calc (node_of d' me)).
 Proof. intros A. unfold wait_of. destruct calc; [apply (ar_wcalc_inc _ _ _ _ A)|apply (ar_wrun_inc _ _ _ _ A)]. Qed.
 
+Lemma recd_awr calc d d' me x : awr_rel calc d d' me -> recd d (node_of d me) x -> recd d' (node_of d' me) x.
+Proof.
+  intros A (F & B & C). unfold recd, final. rewrite (ar_st _ _ _ _ A). split; [exact F|].
+  split; intros H; [apply (ar_bad _ _ _ _ A)|apply (ar_ign _ _ _ _ A)]; auto.
+Qed.
+
 Lemma add_wait_run_spec l : forall d me calc,
   InvExcept d me -> (calc = true -> late (n_pc (node_of d me)) = false) ->
   let d' := add_wait_run d me l calc in
   InvExcept d' me /\ awr_rel calc d d' me /\
-  (forall x, In x l -> In x (wait_of calc (node_of d' me)) \/ final d' x) /\
+  (forall x, In x l -> In x (wait_of calc (node_of d' me)) \/ recd d' (node_of d' me) x) /\
   (forall y, In y (wait_of calc (node_of d' me)) -> In y l \/ In y (wait_of calc (node_of d me))).
 Proof.
   induction l as [|x r IH]; intros d me calc HI Hc; cbn [Dispatch.add_wait_run]; cbv zeta.
@@ -396,7 +453,7 @@ Proof.
     + intros y [<-|Hy]; [|apply P2; exact Hy].
       destruct P1 as [P1|P1].
       * left. eapply wait_of_inc; eauto.
-      * right. unfold final in *. rewrite (ar_st _ _ _ _ R2), (ar_st _ _ _ _ R1). exact P1.
+      * right. eapply recd_awr; eauto.
     + intros y Hy. destruct (Q2 y Hy) as [H|H]; [left; right; exact H|].
       destruct (Q1 y H) as [->|H']; [left; left; reflexivity|right; exact H'].
 Qed.
@@ -488,18 +545,25 @@ Definition deps_final (d : dstate) (me : name) : Prop :=
   forall x, In x (n_all_task (node_of d me) ++ n_all_calc (node_of d me)) -> final d x.
 Definition setup_final (d : dstate) (me : name) : Prop :=
   forall x, In x (t_setup (get_task me)) -> final d x.
+(* ... and their outcomes were recorded in the node's bad_deps / ignored_deps *)
+Definition deps_recd (d : dstate) (me : name) : Prop :=
+  forall x, In x (n_all_task (node_of d me) ++ n_all_calc (node_of d me)) -> recd d (node_of d me) x.
+Definition setup_recd (d : dstate) (me : name) : Prop :=
+  forall x, In x (t_setup (get_task me)) -> recd d (node_of d me) x.
 
 Lemma node_okw_pc d me nd p :
   node_okw d nd ->
-  (forall x, In x (inflight (n_pc nd)) -> In x (inflight p) \/ In x (n_wrun nd ++ n_wcalc nd) \/ final d x) ->
+  (forall x, In x (inflight (n_pc nd)) -> In x (inflight p) \/ In x (n_wrun nd ++ n_wcalc nd) \/ recd d nd x) ->
   (late p = true -> n_pend_task nd = [] /\ n_pend_calc nd = [] /\ n_wcalc nd = [] /\
                     (p <> PSetupWaited -> n_wrun nd = [])) ->
-  (p = PSetupWaited -> forall x, In x (t_setup (get_task me)) -> In x (n_wrun nd) \/ final d x) ->
+  (p = PSetupWaited -> forall x, In x (t_setup (get_task me)) -> In x (n_wrun nd) \/ recd d nd x) ->
   (early p = true -> early (n_pc nd) = true) ->
+  (in_setup p = true -> n_st nd = SRun) ->
   node_ok d me (nd_pc nd p).
 Proof.
-  intros [H1 H2 H3 H4] Hin Hl Hs He. split; simpl; auto.
+  intros [H1 H2 H3 H4] Hin Hl Hs He Hss. split; simpl; auto.
   intros x Hx. destruct (H1 x Hx) as [H|[H|[H|H]]]; auto.
+  destruct (Hin x H) as [H'|[H'|H']]; auto.
 Qed.
 
 Lemma Pre_step d d' me :
@@ -533,7 +597,9 @@ Definition step_post (d d' : dstate) (me : name) (y : gyield) : Prop :=
   (y <> YSelf -> Pre d') /\
   (y = YSelf -> deps_final d' me /\ (n_pc (node_of d' me) = PDone -> setup_final d' me) /\
                 (n_pc (node_of d' me) = PAfterSelf \/ n_pc (node_of d' me) = PDone) /\
-                (n_pc (node_of d' me) = PAfterSelf -> st_of d' me = SNone)).
+                (n_pc (node_of d' me) = PAfterSelf -> st_of d' me = SNone) /\
+                deps_recd d' me /\ (n_pc (node_of d' me) = PDone -> setup_recd d' me) /\
+                (n_pc (node_of d' me) = PDone -> st_of d' me = SRun)).
 
 Lemma step_post_trans d d1 d' me y :
   step_rel d d1 me -> step_post d1 d' me y -> step_post d d' me y.
@@ -571,17 +637,18 @@ Qed.
 Lemma set_pc_Inv_same d me p :
   Inv d ->
   inflight p = inflight (n_pc (node_of d me)) -> late p = late (n_pc (node_of d me)) ->
-  early p = early (n_pc (node_of d me)) ->
+  early p = early (n_pc (node_of d me)) -> in_setup p = in_setup (n_pc (node_of d me)) ->
   p <> PSetupWaited -> n_pc (node_of d me) <> PSetupWaited ->
   Inv (set_pc d me p).
 Proof.
-  intros HI Ei El Ee Hp Hq. unfold Dispatch.set_pc. apply Inv_set_node; auto.
-  destruct (node_of_ok d me HI) as [H1 H2 H3 H4 H5].
+  intros HI Ei El Ee Es Hp Hq. unfold Dispatch.set_pc. apply Inv_set_node; auto.
+  destruct (node_of_ok d me HI) as [H1 H2 H3 H4 H5 H6].
   split; simpl; auto.
   - rewrite Ei. exact H1.
   - rewrite El. intros L. destruct (H2 L) as (A & B & C & D). auto.
   - intros E. contradiction.
   - rewrite Ee. exact H5.
+  - rewrite Es. exact H6.
 Qed.
 
 Lemma set_pc_rel d me p : step_rel d (set_pc d me p) me.
@@ -599,7 +666,7 @@ Proof.
   assert (REC : forall d1, Inv d1 -> step_rel d d1 me -> Pre d1 -> resumable d1 me ->
                 gen_step fuel d1 me = (y, d') -> step_post d d' me y).
   { intros d1 I1 R1 P1 Q1 G1. eapply step_post_trans; eauto. }
-  pose proof (node_of_ok d me HI) as Hok. destruct Hok as [Hacc Hlate Hsetup Hwsel Hearly].
+  pose proof (node_of_ok d me HI) as Hok. destruct Hok as [Hacc Hlate Hsetup Hwsel Hearly Hsst].
   destruct (n_pc (node_of d me)) as [|rest calcs tks|rest tks| | | |rest| |] eqn:Epc.
   - (* PLoop *)
     set (nd := node_of d me) in *.
@@ -625,7 +692,7 @@ Proof.
       cbv zeta in *. set (d1 := add_wait_run d me calcs true) in *.
       assert (Hpc1 : n_pc (node_of d1 me) = PCalc [] calcs tks) by (rewrite (ar_pc _ _ _ _ RA); exact Epc).
       assert (Hok' : node_ok d1 me (nd_pc (node_of d1 me) (PTask tks tks))).
-      { apply node_okw_pc; [apply HE| | simpl; discriminate | discriminate | first [simpl; discriminate | intros _; rewrite Hpc1; reflexivity]].
+      { apply node_okw_pc; [apply HE| | simpl; discriminate | discriminate | first [simpl; discriminate | intros _; rewrite Hpc1; reflexivity] | first [simpl; discriminate | intros _; apply (okw_sst _ _ (proj2 HE)); rewrite Hpc1; reflexivity]].
         rewrite Hpc1. simpl. intros x Hx. rewrite in_app_iff in Hx. destruct Hx as [Hx|Hx]; auto.
         destruct (PA x Hx) as [H|H]; auto. right; left. rewrite in_app_iff. right. exact H. }
       apply (REC (set_pc d1 me (PTask tks tks))); auto.
@@ -659,7 +726,7 @@ Proof.
       assert (RS : step_rel d d1 me) by (eapply step_rel_of_awr; eauto).
       (* back to the top of the loop (more deps arrived, or something to wait for) *)
       assert (HokL : node_ok d1 me (nd_pc (node_of d1 me) PLoop)).
-      { apply node_okw_pc; [apply HE| | simpl; discriminate | discriminate | first [simpl; discriminate | intros _; rewrite Hpc1; reflexivity]].
+      { apply node_okw_pc; [apply HE| | simpl; discriminate | discriminate | first [simpl; discriminate | intros _; rewrite Hpc1; reflexivity] | first [simpl; discriminate | intros _; apply (okw_sst _ _ (proj2 HE)); rewrite Hpc1; reflexivity]].
         rewrite Hpc1. simpl. intros x Hx.
         destruct (PA x Hx) as [H|H]; auto. right; left. rewrite in_app_iff. left. exact H. }
       assert (IL : Inv (set_pc d1 me PLoop)) by (apply Inv_of_except; auto).
@@ -675,7 +742,7 @@ Proof.
         -- apply orb_negb_nil_false in Ep. apply orb_negb_nil_false in Ew.
            destruct Ep as [Ep1 Ep2]. destruct Ew as [Ew1 Ew2].
            assert (HokS : node_ok d1 me (nd_pc (node_of d1 me) PSelf)).
-           { apply node_okw_pc; [apply HE| | | discriminate | first [simpl; discriminate | intros _; rewrite Hpc1; reflexivity]].
+           { apply node_okw_pc; [apply HE| | | discriminate | first [simpl; discriminate | intros _; rewrite Hpc1; reflexivity] | first [simpl; discriminate | intros _; apply (okw_sst _ _ (proj2 HE)); rewrite Hpc1; reflexivity]].
              - rewrite Hpc1. simpl. intros x Hx. destruct (PA x Hx) as [H|H]; auto.
                simpl in H. rewrite Ew1 in H. destruct H.
              - intros _. auto. }
@@ -704,7 +771,7 @@ Proof.
   - (* PSelf: yield this_task *)
     inversion Hg; subst. split; [first [intros k Ek; discriminate | intros k Ek; inversion Ek; subst; destruct (K1 eq_refl) as (Kne & Kpc & Kfresh & Kex); split; [unfold resumable; unfold Dispatch.set_pc; rewrite node_of_set_other by auto; rewrite Kpc; discriminate | split; [unfold Dispatch.set_pc; apply nodes_set_ex; exact Kex | intros z Hz Ez; subst; congruence]]]|]. clear Hg.
     destruct (Hlate eq_refl) as (L1 & L2 & L3 & L4). specialize (L4 ltac:(discriminate)).
-    assert (Hfin : forall x, In x (n_all_task (node_of d me) ++ n_all_calc (node_of d me)) -> final d x).
+    assert (Hrec : forall x, In x (n_all_task (node_of d me) ++ n_all_calc (node_of d me)) -> recd d (node_of d me) x).
     { intros x Hx. destruct (Hacc x Hx) as [H|[H|[H|H]]]; auto.
       - rewrite L1, L2 in H. destruct H.
       - destruct H.
@@ -713,40 +780,44 @@ Proof.
     { split; simpl; auto; try discriminate; try (intros _; repeat split; auto). }
     split; [apply Inv_set_node; auto|]. split; [apply set_pc_rel|].
     split; [intros _; unfold resumable; rewrite set_pc_node; simpl; discriminate|].
-    split; [congruence|]. intros _. unfold deps_final, setup_final. rewrite !set_pc_node. simpl.
-    split; [|split; [discriminate|split; [auto|]]].
-    + intros x Hx. unfold final. rewrite (sr_st _ _ _ (set_pc_rel d me PAfterSelf)). apply Hfin. exact Hx.
+    split; [congruence|]. intros _. unfold deps_final, setup_final, deps_recd, setup_recd. rewrite !set_pc_node. simpl.
+    assert (Hm : mono d (set_pc d me PAfterSelf)) by (apply mono_of_st; apply (sr_st _ _ _ (set_pc_rel d me PAfterSelf))).
+    split; [|split; [discriminate|split; [auto|split; [|split; [|split; discriminate]]]]].
+    + intros x Hx. eapply mono_final; [exact Hm|]. apply (recd_final d (node_of d me)). apply Hrec. exact Hx.
     + intros _. rewrite (sr_st _ _ _ (set_pc_rel d me PAfterSelf)). apply Hearly. reflexivity.
+    + intros x Hx. apply (recd_mono d); [exact Hm|]. apply (recd_fields d (node_of d me)); [reflexivity|reflexivity|]. apply Hrec. exact Hx.
   - (* PAfterSelf *)
     destruct (Hlate eq_refl) as (L1 & L2 & L3 & L4). specialize (L4 ltac:(discriminate)).
-    assert (Hokp : forall p, late p = true -> early p = false -> p <> PSetupWaited -> node_ok d me (nd_pc (node_of d me) p)).
-    { intros p Lp Ep Np. split; simpl; auto; try (intros E; contradiction); try (intros E; congruence); try (intros _; repeat split; auto).
+    assert (Hokp : forall p, late p = true -> early p = false -> p <> PSetupWaited ->
+                   (in_setup p = true -> n_st (node_of d me) = SRun) -> node_ok d me (nd_pc (node_of d me) p)).
+    { intros p Lp Ep Np Hss. split; simpl; auto; try (intros E; contradiction); try (intros E; congruence); try (intros _; repeat split; auto).
       all: try (intros x Hx; destruct (Hacc x Hx) as [H|[H|[H|H]]]; auto; destruct H). }
     destruct (is_nil (t_setup (get_task me))) eqn:Es.
-    + inversion Hg; subst. split; [first [intros k Ek; discriminate | intros k Ek; inversion Ek; subst; destruct (K1 eq_refl) as (Kne & Kpc & Kfresh & Kex); split; [unfold resumable; unfold Dispatch.set_pc; rewrite node_of_set_other by auto; rewrite Kpc; discriminate | split; [unfold Dispatch.set_pc; apply nodes_set_ex; exact Kex | intros z Hz Ez; subst; congruence]]]|]. split; [apply Inv_set_node; auto; apply Hokp; [reflexivity|reflexivity|discriminate]|].
+    + inversion Hg; subst. split; [first [intros k Ek; discriminate | intros k Ek; inversion Ek; subst; destruct (K1 eq_refl) as (Kne & Kpc & Kfresh & Kex); split; [unfold resumable; unfold Dispatch.set_pc; rewrite node_of_set_other by auto; rewrite Kpc; discriminate | split; [unfold Dispatch.set_pc; apply nodes_set_ex; exact Kex | intros z Hz Ez; subst; congruence]]]|]. split; [apply Inv_set_node; auto; apply Hokp; [reflexivity|reflexivity|discriminate|first [discriminate | intros _; exact Est | intros _; reflexivity]]|].
       split; [apply set_pc_rel|]. split; [intros _; unfold resumable; rewrite set_pc_node; simpl; discriminate|].
       split; [|discriminate]. intros _. eapply Pre_step; [exact HP|apply set_pc_rel|].
       rewrite set_pc_node. simpl. discriminate.
     + assert (Hst : st_of d me <> SNone) by (apply HP; exact Epc).
       destruct (n_st (node_of d me)) eqn:Est; [exfalso; apply Hst; exact Est| | | | | |];
         (apply (REC (set_pc d me PAfterSelWait)); auto;
-         [ apply Inv_set_node; auto; apply Hokp; [reflexivity|reflexivity|discriminate]
+         [ apply Inv_set_node; auto; apply Hokp; [reflexivity|reflexivity|discriminate|first [discriminate | intros _; exact Est | intros _; reflexivity]]
          | apply set_pc_rel
          | eapply Pre_step; [exact HP|apply set_pc_rel|]; rewrite set_pc_node; simpl; discriminate
          | unfold resumable; rewrite set_pc_node; simpl; discriminate ]).
   - (* PAfterSelWait *)
     destruct (Hlate eq_refl) as (L1 & L2 & L3 & L4). specialize (L4 ltac:(discriminate)).
-    assert (Hokp : forall p, late p = true -> early p = false -> p <> PSetupWaited -> node_ok d me (nd_pc (node_of d me) p)).
-    { intros p Lp Ep Np. split; simpl; auto; try (intros E; contradiction); try (intros E; congruence); try (intros _; repeat split; auto).
+    assert (Hokp : forall p, late p = true -> early p = false -> p <> PSetupWaited ->
+                   (in_setup p = true -> n_st (node_of d me) = SRun) -> node_ok d me (nd_pc (node_of d me) p)).
+    { intros p Lp Ep Np Hss. split; simpl; auto; try (intros E; contradiction); try (intros E; congruence); try (intros _; repeat split; auto).
       all: try (intros x Hx; destruct (Hacc x Hx) as [H|[H|[H|H]]]; auto; destruct H). }
     assert (Hend : (YEnd, set_pc d me PDone) = (y, d') -> step_post d d' me y).
-    { intros E. inversion E; subst. split; [first [intros k Ek; discriminate | intros k Ek; inversion Ek; subst; destruct (K1 eq_refl) as (Kne & Kpc & Kfresh & Kex); split; [unfold resumable; unfold Dispatch.set_pc; rewrite node_of_set_other by auto; rewrite Kpc; discriminate | split; [unfold Dispatch.set_pc; apply nodes_set_ex; exact Kex | intros z Hz Ez; subst; congruence]]]|]. split; [apply Inv_set_node; auto; apply Hokp; [reflexivity|reflexivity|discriminate]|].
+    { intros E. inversion E; subst. split; [first [intros k Ek; discriminate | intros k Ek; inversion Ek; subst; destruct (K1 eq_refl) as (Kne & Kpc & Kfresh & Kex); split; [unfold resumable; unfold Dispatch.set_pc; rewrite node_of_set_other by auto; rewrite Kpc; discriminate | split; [unfold Dispatch.set_pc; apply nodes_set_ex; exact Kex | intros z Hz Ez; subst; congruence]]]|]. split; [apply Inv_set_node; auto; apply Hokp; [reflexivity|reflexivity|discriminate|first [discriminate | intros _; exact Est | intros _; reflexivity]]|].
       split; [apply set_pc_rel|]. split; [intros _; unfold resumable; rewrite set_pc_node; simpl; discriminate|].
       split; [|discriminate]. intros _. eapply Pre_step; [exact HP|apply set_pc_rel|].
       rewrite set_pc_node. simpl. discriminate. }
     destruct (n_st (node_of d me)) eqn:Est; try (apply Hend; exact Hg).
     apply (REC (set_pc d me (PSetup (t_setup (get_task me))))); auto.
-    + apply Inv_set_node; auto. apply Hokp; [reflexivity|reflexivity|discriminate].
+    + apply Inv_set_node; auto. apply Hokp; [reflexivity|reflexivity|discriminate|first [discriminate | intros _; exact Est | intros _; reflexivity]].
     + apply set_pc_rel.
     + eapply Pre_step; [exact HP|apply set_pc_rel|]. rewrite set_pc_node. simpl. discriminate.
     + unfold resumable. rewrite set_pc_node. simpl. discriminate.
@@ -764,25 +835,30 @@ Proof.
       destruct (is_nil (n_wrun (node_of d1 me))) eqn:Ew.
       * apply is_nil_true in Ew. inversion Hg; subst. split; [first [intros k Ek; discriminate | intros k Ek; inversion Ek; subst; destruct (K1 eq_refl) as (Kne & Kpc & Kfresh & Kex); split; [unfold resumable; unfold Dispatch.set_pc; rewrite node_of_set_other by auto; rewrite Kpc; discriminate | split; [unfold Dispatch.set_pc; apply nodes_set_ex; exact Kex | intros z Hz Ez; subst; congruence]]]|].
         assert (HokD : node_ok d1 me (nd_pc (node_of d1 me) PDone)).
-        { apply node_okw_pc; [apply HE| | | discriminate | first [simpl; discriminate | intros _; rewrite Hpc1; reflexivity]].
+        { apply node_okw_pc; [apply HE| | | discriminate | first [simpl; discriminate | intros _; rewrite Hpc1; reflexivity] | first [simpl; discriminate | intros _; apply (okw_sst _ _ (proj2 HE)); rewrite Hpc1; reflexivity]].
           - rewrite Hpc1. simpl. intros x [].
           - intros _. destruct Hlate1 as (A & B & C). repeat split; auto. }
         split; [apply Inv_of_except; auto|].
         split; [eapply step_rel_trans; [exact RS|apply set_pc_rel]|].
         split; [intros _; unfold resumable; rewrite set_pc_node; simpl; discriminate|].
-        split; [congruence|]. intros _. unfold deps_final, setup_final. rewrite !set_pc_node. simpl.
-        assert (Hst' : forall x, st_of (set_pc d1 me PDone) x = st_of d1 x) by (apply (sr_st _ _ _ (set_pc_rel d1 me PDone))).
-        split; [|split; [|split; [auto|discriminate]]].
-        -- intros x Hx. unfold final. rewrite Hst'.
-           destruct (okw_acc _ _ (proj2 HE) x Hx) as [H|[H|[H|H]]]; auto.
-           ++ destruct Hlate1 as (A & B & C). rewrite A, B in H. destruct H.
-           ++ rewrite Hpc1 in H. destruct H.
-           ++ destruct Hlate1 as (A & B & C). rewrite Ew, C in H. destruct H.
-        -- intros _ x Hx. unfold final. rewrite Hst'.
-           destruct (PA x Hx) as [H|H]; auto. simpl in H. rewrite Ew in H. destruct H.
+        split; [congruence|]. intros _. unfold deps_final, setup_final, deps_recd, setup_recd. rewrite !set_pc_node. simpl.
+        assert (Hm : mono d1 (set_pc d1 me PDone)) by (apply mono_of_st; apply (sr_st _ _ _ (set_pc_rel d1 me PDone))).
+        assert (Hrec : forall x, In x (n_all_task (node_of d1 me) ++ n_all_calc (node_of d1 me)) -> recd d1 (node_of d1 me) x).
+        { intros x Hx. destruct (okw_acc _ _ (proj2 HE) x Hx) as [H|[H|[H|H]]]; auto.
+          - destruct Hlate1 as (A & B & C). rewrite A, B in H. destruct H.
+          - rewrite Hpc1 in H. destruct H.
+          - destruct Hlate1 as (A & B & C). rewrite Ew, C in H. destruct H. }
+        assert (Hrs : forall x, In x (t_setup (get_task me)) -> recd d1 (node_of d1 me) x).
+        { intros x Hx. destruct (PA x Hx) as [H|H]; auto. simpl in H. rewrite Ew in H. destruct H. }
+        split; [|split; [|split; [auto|split; [discriminate|split; [|split]]]]].
+        -- intros x Hx. eapply mono_final; [exact Hm|]. eapply recd_final. apply Hrec; exact Hx.
+        -- intros _ x Hx. eapply mono_final; [exact Hm|]. eapply recd_final. apply Hrs; exact Hx.
+        -- intros x Hx. apply (recd_mono d1); [exact Hm|]. apply (recd_fields d1 (node_of d1 me)); [reflexivity|reflexivity|]. apply Hrec; exact Hx.
+        -- intros _ x Hx. apply (recd_mono d1); [exact Hm|]. apply (recd_fields d1 (node_of d1 me)); [reflexivity|reflexivity|]. apply Hrs; exact Hx.
+        -- intros _. rewrite (sr_st _ _ _ (set_pc_rel d1 me PDone)). apply (okw_sst _ _ (proj2 HE)). rewrite Hpc1. reflexivity.
       * inversion Hg; subst. split; [first [intros k Ek; discriminate | intros k Ek; inversion Ek; subst; destruct (K1 eq_refl) as (Kne & Kpc & Kfresh & Kex); split; [unfold resumable; unfold Dispatch.set_pc; rewrite node_of_set_other by auto; rewrite Kpc; discriminate | split; [unfold Dispatch.set_pc; apply nodes_set_ex; exact Kex | intros z Hz Ez; subst; congruence]]]|].
         assert (HokW : node_ok d1 me (nd_pc (node_of d1 me) PSetupWaited)).
-        { apply node_okw_pc; [apply HE| | |  | first [simpl; discriminate | intros _; rewrite Hpc1; reflexivity]].
+        { apply node_okw_pc; [apply HE| | |  | first [simpl; discriminate | intros _; rewrite Hpc1; reflexivity] | first [simpl; discriminate | intros _; apply (okw_sst _ _ (proj2 HE)); rewrite Hpc1; reflexivity]].
           - rewrite Hpc1. simpl. intros x [].
           - intros _. destruct Hlate1 as (A & B & C). repeat split; auto. intros E; contradiction.
           - intros _ x Hx. destruct (PA x Hx) as [H|H]; auto. }
@@ -816,15 +892,21 @@ Proof.
       all: try (intros x Hx; destruct (Hacc x Hx) as [H|[H|[H|H]]]; auto; destruct H). }
     split; [apply Inv_set_node; auto|]. split; [apply set_pc_rel|].
     split; [intros _; unfold resumable; rewrite set_pc_node; simpl; discriminate|].
-    split; [congruence|]. intros _. unfold deps_final, setup_final. rewrite !set_pc_node. simpl.
-    assert (Hst' : forall x, st_of (set_pc d me PDone) x = st_of d x) by (apply (sr_st _ _ _ (set_pc_rel d me PDone))).
-    split; [|split; [|split; [auto|discriminate]]].
-    + intros x Hx. unfold final. rewrite Hst'. destruct (Hacc x Hx) as [H|[H|[H|H]]]; auto.
-      * rewrite L1, L2 in H. destruct H.
-      * destruct H.
-      * rewrite Lw, L3 in H. destruct H.
-    + intros _ x Hx. unfold final. rewrite Hst'. destruct (Hsetup eq_refl x Hx) as [H|H]; auto.
-      rewrite Lw in H. destruct H.
+    split; [congruence|]. intros _. unfold deps_final, setup_final, deps_recd, setup_recd. rewrite !set_pc_node. simpl.
+    assert (Hm : mono d (set_pc d me PDone)) by (apply mono_of_st; apply (sr_st _ _ _ (set_pc_rel d me PDone))).
+    assert (Hrec : forall x, In x (n_all_task (node_of d me) ++ n_all_calc (node_of d me)) -> recd d (node_of d me) x).
+    { intros x Hx. destruct (Hacc x Hx) as [H|[H|[H|H]]]; auto.
+      - rewrite L1, L2 in H. destruct H.
+      - destruct H.
+      - rewrite Lw, L3 in H. destruct H. }
+    assert (Hrs : forall x, In x (t_setup (get_task me)) -> recd d (node_of d me) x).
+    { intros x Hx. destruct (Hsetup eq_refl x Hx) as [H|H]; auto. rewrite Lw in H. destruct H. }
+    split; [|split; [|split; [auto|split; [discriminate|split; [|split]]]]].
+    + intros x Hx. eapply mono_final; [exact Hm|]. eapply recd_final. apply Hrec; exact Hx.
+    + intros _ x Hx. eapply mono_final; [exact Hm|]. eapply recd_final. apply Hrs; exact Hx.
+    + intros x Hx. apply (recd_mono d); [exact Hm|]. apply (recd_fields d (node_of d me)); [reflexivity|reflexivity|]. apply Hrec; exact Hx.
+    + intros _ x Hx. apply (recd_mono d); [exact Hm|]. apply (recd_fields d (node_of d me)); [reflexivity|reflexivity|]. apply Hrs; exact Hx.
+    + intros _. rewrite (sr_st _ _ _ (set_pc_rel d me PDone)). apply Hsst. reflexivity.
   - (* PDone *)
     inversion Hg; subst. split; [first [intros k Ek; discriminate | intros k Ek; inversion Ek; subst; destruct (K1 eq_refl) as (Kne & Kpc & Kfresh & Kex); split; [unfold resumable; unfold Dispatch.set_pc; rewrite node_of_set_other by auto; rewrite Kpc; discriminate | split; [unfold Dispatch.set_pc; apply nodes_set_ex; exact Kex | intros z Hz Ez; subst; congruence]]]|]. split; auto. split; [apply step_rel_refl|]. split; auto. split; auto. discriminate.
 Qed.
@@ -881,9 +963,13 @@ Proof.
   assert (Hokw1 : node_okw d nw1).
   { split; unfold nw1; simpl; rewrite ?f1, ?f2, ?f5, ?f6, ?f7, ?f8, ?f9; auto.
     - intros x Hx. destruct (Hacc x Hx) as [H|[H|[H|H]]]; auto.
-      destruct (N.eqb_spec x fin) as [->|Hne]; auto.
-      right; right; left. rewrite in_app_iff in *. rewrite f3, f4.
-      destruct H as [H|H]; [left|right]; apply rem_In; auto.
+      + destruct (N.eqb_spec x fin) as [->|Hne].
+        * right; right; right. apply (recd_fields d nw); [reflexivity|reflexivity|].
+          unfold nw, fs. apply recd_parent_self. exact Hfin.
+        * right; right; left. rewrite in_app_iff in *. rewrite f3, f4.
+          destruct H as [H|H]; [left|right]; apply rem_In; auto.
+      + right; right; right. apply (recd_fields d nw); [reflexivity|reflexivity|].
+        unfold nw. apply recd_parent. exact H.
     - intros L. destruct (Hlate L) as (A & B & C & D). rewrite f4, C. auto. }
   destruct (mem fin (n_wcalc nd)) eqn:Ec.
   - (* a calc_dep finished: its results are merged *)
@@ -907,9 +993,12 @@ Proof.
       * unfold nw1 at 1 2 3. simpl. rewrite f1. intros L. destruct (Hlate L) as (A & B & C & D).
         destruct (P2 ltac:(unfold nw1; simpl; rewrite f1; exact L)) as (A' & B' & C').
         repeat split; auto. intros Np. unfold nw1. simpl. rewrite f3, (D Np). reflexivity.
-      * unfold nw1 at 1. simpl. rewrite f1. intros E x Hx. destruct (Hsetup E x Hx) as [H|H]; auto.
-        destruct (N.eqb_spec x fin) as [->|Hne]; auto.
-        left. unfold nw1. simpl. rewrite f3. apply rem_In. auto.
+      * unfold nw1 at 1. simpl. rewrite f1. intros E x Hx. destruct (Hsetup E x Hx) as [H|H].
+        -- destruct (N.eqb_spec x fin) as [->|Hne].
+           ++ right. apply (recd_fields d nw); [reflexivity|reflexivity|].
+              unfold nw, fs. apply recd_parent_self. exact Hfin.
+           ++ left. unfold nw1. simpl. rewrite f3. apply rem_In. auto.
+        -- right. apply (recd_fields d nw); [reflexivity|reflexivity|]. unfold nw. apply recd_parent. exact H.
     + intros y Hy. unfold nw1 in Hy. simpl in Hy. rewrite f3 in Hy. apply rem_In in Hy. exact Hy.
     + intros Hr _. apply andb_true_iff in Hr. destruct Hr as [Hr _]. apply is_nil_true in Hr. exact Hr.
 Qed.
@@ -1112,7 +1201,9 @@ Definition disp_post (d d' : dstate) (y : dyield) : Prop :=
   | DTask k => ~ spent d k /\ d_cur d' = Some k /\ deps_final d' k /\
                (n_pc (node_of d' k) = PDone -> setup_final d' k) /\
                (n_pc (node_of d' k) = PAfterSelf \/ n_pc (node_of d' k) = PDone) /\
-               (n_pc (node_of d' k) = PAfterSelf -> st_of d' k = SNone) /\ PreX d' k
+               (n_pc (node_of d' k) = PAfterSelf -> st_of d' k = SNone) /\ PreX d' k /\
+               deps_recd d' k /\ (n_pc (node_of d' k) = PDone -> setup_recd d' k) /\
+               (n_pc (node_of d' k) = PDone -> st_of d' k = SRun)
   | _ => Pre d'
   end.
 
@@ -1180,12 +1271,13 @@ Proof.
            apply addset_In in Hz. destruct Hz as [->|Hz]; apply Ex1; auto.
       * exact Hd.
     + (* the task is handed to the runner *)
-      inversion Hd; subst. destruct (Y1 eq_refl) as (Y2 & Y3 & Y4 & Y5).
+      inversion Hd; subst. destruct (Y1 eq_refl) as (Y2 & Y3 & Y4 & Y5 & Y6 & Y7 & Y8).
       split; [exact I1|]. split.
       { intros z [Hz|Hz]; [rewrite q3 in Hz; inversion Hz; subst; apply (Q1 ltac:(discriminate))|].
         rewrite q1 in Hz. apply ResReady; exact Hz. }
       split. { split; rewrite ?q1, ?q2, ?q3; auto. all: try (intros z Hz; apply Ex1; destruct Hz as [Hz|[Hz|Hz]]; auto). }
       split; [apply (sr_st _ _ _ R1)|]. split; [apply (sr_all _ _ _ R1)|]. split; [exact Sp1|]. split; [apply Sp2; reflexivity|]. split; [rewrite q3; reflexivity|]. split; auto. split; auto. split; auto. split; auto.
+      split; [|split; [exact Y6|split; [exact Y7|exact Y8]]].
       intros z Hz Hpc. rewrite (sr_st _ _ _ R1). apply HP.
       destruct (sr_other _ _ _ R1 z Hz) as [E _]. congruence.
     + (* generator exhausted *)
